@@ -20,11 +20,20 @@ fn child(cmd: &str, outcomes: &str, dir: &str) -> ! {
     let mut args: Vec<String> = vec!["routinator".into(), "--repository-dir".into(), cache, "--no-rir-tals".into(),
         "--extra-tals-dir".into(), tals, "--config".into(), format!("{}/none.conf", dir)];
     std::fs::write(format!("{}/none.conf", dir), format!("repository-dir = \"{}/cache\"\n", dir)).unwrap();
+    // "<cmd>!" = Engine::sanitize fails: a zero-length RRDP archive in the cache (its magic cannot be read, which
+    // RRDP sanitize reports as fatal); commands run with the collector (no --noupdate; there are no TALs, so nothing
+    // is fetched) for sanitize to look at it
+    let (cmd, plant) = match cmd.strip_suffix('!') { Some(c) => (c, true), None => (cmd, false) };
+    if plant {
+        std::fs::create_dir_all(format!("{}/cache/rrdp/host.example", dir)).unwrap();
+        std::fs::write(format!("{}/cache/rrdp/host.example/0123456789abcdef.bin", dir), b"").unwrap();
+    }
     match cmd {
+        "vrps_upd" => args.extend(["--disable-rsync".into(), "vrps".into(), "-o".into(), out]),
         "vrps" => args.extend(["vrps".into(), "--noupdate".into(), "-o".into(), out]),
         "validate" => args.extend(["validate".into(), "--noupdate".into(), "-a".into(), "64500".into(), "-p".into(), "10.0.0.0/8".into(), "-o".into(), out]),
         "update" => args.extend(["update".into()]),
-        "server" => args.extend(["server".into(), "--refresh".into(), "1".into()]),
+        "server" => args.extend(["--disable-rsync".into(), "server".into(), "--refresh".into(), "1".into()]),
         _ => panic!("cmd"),
     }
     let res: Result<(), ExitError> = (|| {
@@ -58,6 +67,16 @@ fn gen(_rng: &mut Rng, tier: &str) -> Vec<(String, Value)> {
             }
         }
     }
+    // Engine::sanitize fails (the retry is only made after a successful sanitize): vrps with the collector, server
+    for cmd in ["vrps_upd", "vrps_upd!", "server!"] {
+        for seq in [vec![1u64, 0], vec![1, 1, 0], vec![1, 2], vec![0], vec![2], vec![1, 1, 1, 1, 1, 1, 2], vec![0, 1, 0, 1, 2], vec![0, 1, 2]] {
+            if cmd.starts_with("server") && *seq.last().unwrap() == 0 { continue }
+            // with the damaged cache only histories that never get past a failing run are in the model's scope (a
+            // successful run is followed by phases - cleanup - that the zero-length archive makes fail as well)
+            if cmd.ends_with('!') && seq[0] == 0 { continue }
+            cases.push((format!("{}.sanitize", cmd.replace('!', "_fails")), json!({"cmd": cmd, "outcomes": seq})));
+        }
+    }
     // long retry streaks (8 retries, then fatal for ever): a command that keeps retrying shows up as 9 runs
     for cmd in ["vrps", "validate", "update", "server"] {
         cases.push((format!("{}.retry_streak", cmd), json!({"cmd": cmd, "outcomes": [1, 1, 1, 1, 1, 1, 1, 1, 2]})));
@@ -84,10 +103,10 @@ fn run(input: &Value) -> CaseOut {
     let line = out.lines().find(|l| l.starts_with("RESULT ")).unwrap_or("RESULT runs=999999 exit=99").to_string();
     let runs: u64 = line.split("runs=").nth(1).and_then(|s| s.split(' ').next()).and_then(|s| s.parse().ok()).unwrap_or(999_999);
     let exit: u64 = line.split("exit=").nth(1).and_then(|s| s.trim().parse().ok()).unwrap_or(99);
-    let code = match cmd { "vrps" => 0, "validate" => 1, "update" => 2, _ => 3 };
-    let coq = format!("{{| c_cmd := {}; c_outcomes := [{}]; i_ended := {}; i_runs := {}; i_exit_ok := {} |}}",
+    let code = match cmd.trim_end_matches('!') { "vrps" | "vrps_upd" => 0, "validate" => 1, "update" => 2, _ => 3 };
+    let coq = format!("{{| c_cmd := {}; c_outcomes := [{}]; c_sanitize_ok := {}; i_ended := {}; i_runs := {}; i_exit_ok := {} |}}",
         code, outcomes.iter().map(|o| match o { 0 => "Ok", 1 => "Retry", _ => "Fatal" }).collect::<Vec<_>>().join("; "),
-        coq_bool(ended), runs, coq_bool(exit == 0));
+        coq_bool(!cmd.ends_with('!')), coq_bool(ended), runs, coq_bool(exit == 0));
     CaseOut { obs: json!({"ended": ended, "runs": runs, "exit": exit}), coq, nontrivial: outcomes.iter().any(|o| *o != 0) }
 }
 
